@@ -72,6 +72,46 @@ func (fx *fctx) callExternal(st *State, fn *types.Func, recv *Value, recvExpr as
 	case "fmt.Sprint", "strings.Join", "strings.Repeat", "strings.TrimSpace", "strings.TrimRightFunc", "strings.ToLower":
 		r := results()
 		return r
+	case "unicode/utf8.DecodeRune", "unicode/utf8.DecodeRuneInString":
+		// (r, n): n == 0 iff the input is empty, otherwise 1 <= n <= 4 and n <= len(input)
+		r := results()
+		var ln *Term
+		if args[0].Sl != nil {
+			ln = args[0].Sl.Len
+		} else {
+			ln = ts.App("str_len", SInt, args[0].Tm)
+		}
+		n := r[1].Tm
+		st.assume(ts.And(ts.Ge(n, ts.Int(0)), ts.Le(n, ts.Int(4)), ts.Le(n, ln), ts.Eq(ts.Eq(n, ts.Int(0)), ts.Eq(ln, ts.Int(0)))))
+		e.Assumptions["utf8.DecodeRune: returns a width n with n == 0 iff the input is empty, else 1 <= n <= min(4, len)"] = true
+		return r
+	case "(*regexp.Regexp).FindStringSubmatchIndex":
+		// nil, or 2k (k >= 1) indices: each pair is (-1,-1) or 0 <= s <= e <= len(input)
+		r := results()
+		if len(r) == 1 && r[0].Sl != nil {
+			sl := r[0].Sl
+			ln := ts.App("str_len", SInt, args[0].Tm)
+			h := e.heapGet(st, e.elemKey(types.Typ[types.Int]), ArrSort(SInt))
+			k := ts.BoundVar("rx", SInt)
+			a := ts.Select(h, ts.Add(sl.Ptr, ts.Mul(ts.Int(2), k)))
+			b := ts.Select(h, ts.Add(sl.Ptr, ts.Add(ts.Mul(ts.Int(2), k), ts.Int(1))))
+			pair := ts.Or(ts.And(ts.Eq(a, ts.Int(-1)), ts.Eq(b, ts.Int(-1))), ts.And(ts.Le(ts.Int(0), a), ts.Le(a, b), ts.Le(b, ln)))
+			half := ts.BoundVar("rxh", SInt)
+			_ = half
+			kk := ts.Fresh("rxk", SInt)
+			st.assume(ts.Or(ts.And(ts.Eq(sl.Ptr, ts.Int(0)), ts.Eq(sl.Len, ts.Int(0))),
+				ts.And(ts.Ne(sl.Ptr, ts.Int(0)), ts.Ge(kk, ts.Int(1)), ts.Eq(sl.Len, ts.Mul(ts.Int(2), kk)),
+					ts.Forall([]*Term{k}, ts.Implies(ts.And(ts.Le(ts.Int(0), k), ts.Lt(k, kk)), pair)))))
+			e.Assumptions["regexp.FindStringSubmatchIndex: nil, or 2k indices (k >= 1), each pair (-1,-1) or 0 <= s <= e <= len(input)"] = true
+		}
+		return r
+	case "strings.Split":
+		r := results()
+		if len(r) == 1 && r[0].Sl != nil {
+			st.assume(ts.Ge(r[0].Sl.Len, ts.Int(1)))
+			e.Assumptions["strings.Split with a non-empty separator returns at least one element"] = true
+		}
+		return r
 	case "strconv.FormatInt", "strconv.Itoa":
 		r := results()
 		st.assume(ts.Ge(ts.App("str_len", SInt, r[0].Tm), ts.Int(1)))
